@@ -528,6 +528,47 @@ class Effects:
         memo[key] = res
         return res
 
+    def _param_deref_unguarded(self, t: FunctionInfo, pname: str) -> bool:
+        """``t`` uses its parameter as an object (attribute / subscript / iteration) on a path where it never asked whether there
+        is one"""
+        key = (t.qualname, pname)
+        memo = self.__dict__.setdefault("_pderef", {})
+        if key in memo:
+            return memo[key]
+        memo[key] = False
+        from .dataflow import flow_of
+        from .shape import _atomise
+
+        if pname not in t.params or t.name == "<module>":
+            return False
+        flow = flow_of(t.node)
+        cfg = cfg_of(t.node)
+        res = False
+        for n in own_nodes(t.node):
+            b = None
+            if isinstance(n, (ast.Attribute, ast.Subscript)) and isinstance(n.ctx, ast.Load) and isinstance(n.value, ast.Name) and n.value.id == pname:
+                b = n.value
+            elif isinstance(n, ast.For) and isinstance(n.iter, ast.Name) and n.iter.id == pname:
+                b = n.iter
+            if b is None:
+                continue
+            node = flow.node_of(b)
+            if node is None or not all(d.kind == "param" for d in flow.defs_reaching(node.id, pname)):
+                continue
+            ok = False
+            for tt, lab in list(self._dominating_tests(cfg, b)) + list(_short_circuit_facts(t.node, b)):
+                for e, truth in _atomise(tt, lab == "true"):
+                    if isinstance(e, ast.Name) and e.id == pname and truth:
+                        ok = True
+                    if isinstance(e, ast.Compare) and len(e.ops) == 1 and isinstance(e.ops[0], ast.Is) and norm(e.left) == pname and not truth:
+                        ok = True
+                    if isinstance(e, ast.Call) and isinstance(e.func, ast.Name) and e.func.id == "isinstance" and e.args and norm(e.args[0]) == pname and truth:
+                        ok = True
+            if not ok:
+                res = True
+        memo[key] = res
+        return res
+
     def _pairs_complete(self, cs) -> bool:
         """every tuple the callee(s) return is all-None or None-free"""
         if cs is None or not cs.targets:
@@ -585,7 +626,23 @@ class Effects:
 
         for n in own_nodes(f.node):
             base = None
-            if isinstance(n, ast.Attribute) and isinstance(n.ctx, ast.Load) and isinstance(n.value, ast.Name):
+            if isinstance(n, ast.Call) and id(n) in sites and sites[id(n)].targets:
+                # handed to a program function that dereferences that parameter without asking
+                cs2 = sites[id(n)]
+                for t2 in cs2.targets:
+                    if t2.module.kind not in ("library", "config") or (t2.parent is not None and t2.name == "wrapper"):
+                        continue
+                    from .rules.mutation import bind_args
+
+                    for pname, arg in bind_args(t2, n):
+                        if isinstance(arg, ast.Name) and arg.id in cand and self._param_deref_unguarded(t2, pname):
+                            base = arg
+                            break
+                    if base is not None:
+                        break
+                if base is None:
+                    continue
+            elif isinstance(n, ast.Attribute) and isinstance(n.ctx, ast.Load) and isinstance(n.value, ast.Name):
                 base = n.value
             elif isinstance(n, ast.Subscript) and isinstance(n.ctx, ast.Load) and isinstance(n.value, ast.Name):
                 base = n.value
